@@ -627,6 +627,41 @@ bool prop_C08(Tape& t, Report& rep)
         }
         return true;
     }
+    if (t.chance(1, 6))
+    {
+        // a search that is interrupted (stop / node budget arriving in the middle of an iteration) and then the SAME position
+        // searched again on the same table without anything in between: what the interrupted search left in the table must
+        // not keep the complete search from playing the mate
+        const mp::Pool& P = mp::pool(uint64_t(opt_int("zseed", 1)), opt_int("matepool_tries", 150000), size_t(opt_int("matepool_cap", 16)));
+        int n = 3 + int(t.choose(4));
+        for (int i = 0; i < n; ++i)
+        {
+            ref::Pos root;
+            bool found = false;
+            if (t.flag())
+            {
+                int k = int(t.choose(mp::NKIND));
+                if (!P.k[k].empty())
+                {
+                    root = P.k[k][t.choose(uint32_t(P.k[k].size()))].p;
+                    found = true;
+                }
+            }
+            if (!found) root = mate_in_one_root(t, rep, found);
+            if (ref::legal_moves(root).empty()) continue;
+            Position pos = br::from_fen(root);
+            Limits lim;
+            lim.depth = 6;
+            sl::Plan plan;
+            plan.stop_at = 1 + (t.flag() ? t.choose(60) : t.choose(3000));
+            plan.cap = 200000;
+            history += (history.empty() ? "" : " || ") + std::string("position fen ") + ref::to_fen(root) + " ; go depth 6 (stopped after " + std::to_string(plan.stop_at) + " node visits)";
+            sl::run(S, pos, lim, plan);
+            rep.cls("c08:interrupted_search_then_the_same_root_again");
+            if (!c08_one(S, root, "same_root_after_an_interrupted_search", 1 + int(t.choose(3)), history, rep)) return false;
+        }
+        return true;
+    }
     if (t.chance(1, 4))
     {
         // a batch of cheap shallow searches of forcing back-rank positions: quiescence meets in-check nodes whose only
